@@ -66,6 +66,18 @@ CHECKS = {
   "runtime monitoring: seeded catalogue histories on a real engine (1 and 3 nodes) judged online against a catalogue model with per-table content models; racing creations; reconciliation observed through the running-shard list; pure diff observed through the export shim; process death supervised",
   "create/delete/restore/list/lookup over 3 names interleaved with data operations: success conditions, strictly growing ids (also across delete/recreate and restore), emptiness of (re)created tables, exact restored content, cross-table isolation (all tables dumped after every operation), running user shards == catalogued shards after a reconciliation pass; of racing creations of one name at most one succeeds and ids are never assigned twice.",
   "Reconciliation is triggered through the verif export shim (the periodic loop fires every 30 s); user shard ids > 10000; data-directory clean-up after the 5-minute grace period is not exercised."),
+ "C07": ("exploration",
+  "runtime monitoring: real Engine.Restore under batch-threshold settings aimed at every record position; real backup client + Maintenance service round trips incl. corrupted inputs; captures concurrent with a writer judged against the acknowledged-write history",
+  "Restored content must equal the captured content exactly (no pair lost/altered/added, nothing of the pre-restore content left) for MaxInMemLogSize = 2*c_i and 2*c_i+2 for every cumulative record size c_i (threshold on / after every record, incl. the last), 0, 64 KiB, 1 MiB, with and without the final leader-index marker (recorded leader index == declared index); backup files with a flipped byte / altered manifest checksum / truncation must be refused without effect; captures taken while writes continue must be the state at exactly the declared index.",
+  "MaxInMemLogSize below ~1 kB is not exercised (dragonboat then rejects the proposals forever and Restore retries by design); transport chunking is C18's subject, follower recovery end to end C05's."),
+ "C11": ("exploration",
+  "runtime monitoring: seeded event scripts on the real IndexNotificationQueue judged at barriers (Notify+Len), the real ForwardingKVServer under scripted orders of leader reply / notification / cancellation, and follower-API writes read back on the same node end to end; process death supervised; race detector build",
+  "No early release, prompt release of every live waiter after a sufficient notification, exactly one answer per waiter (checked after quiescence, re-examined at 3x the bound), Len never below the number of live waiters, the event loop keeps answering (wedge detection) for scripts mixing live, cancelled and expired waiters across sweeps incl. revision 0; the RPC returns only after the node applied the leader revision or with the context error; acknowledged follower writes are visible to a same-node serializable read.",
+  "One known finding: a waiter added after the notification that already covers it waits for the next notification (ack delayed although applied). Bounds are watchdogs re-checked once, sweeps are real time."),
+ "C18": ("exploration",
+  "runtime monitoring: reflective generators over all API message types with proto.Equal + presence-aware oracle and cross-check against the reference protobuf implementation; recycled-object decode patterns; concurrent compressor round trips under the race detector; snapshot/backup stream framing with adversarial short-read plans",
+  "Every generated message survives the registered codec into fresh and recycled objects (both production recycling patterns); gzip/snappy/zstd return the original bytes under 16-64 goroutines sharing the pools; command sequences written to snapshot files and streamed through the real Writer/Reader (cuts aimed inside length prefixes and snappy chunk headers, real gRPC for a share of the streams) are read back with the same boundaries.",
+  "One known finding in generated code (pooled Command keeps an empty range_end; latent, no production path decodes into pooled Commands). Hostile wire input is C16's subject."),
 }
 
 NOT_YET = {}
